@@ -25,8 +25,9 @@ Decided:
     the data path is a stage, stages are scheduled into levels (sums / rotations), each level is a block-diagonal map whose
     exact (exact-twiddle) singular values, twiddle perturbation and rounding matrix are computed at 200 bits under a
     weighting that makes the levels orthogonal; the resulting norm-wise bound of ||computed - DFT|| / ||DFT|| is compared
-    with 8*log2(2m)*2^-53: reference path m <= 1024 (thorough 16384), AVX C kernels m <= 8, forward and inverse, both
-    layouts.  Standard model of floating-point arithmetic (no underflow/overflow), fma counted as two roundings.  If the
+    with 8*log2(2m)*2^-53: reference path and accelerated path (AVX C kernels and the hand-written 16-point assembly
+    kernels, whose semantics are lifted from the .s text by spqa.asmsem) m <= 1024 (thorough 16384), forward and inverse,
+    both layouts.  Standard model of floating-point arithmetic (no underflow/overflow), fma counted as two roundings.  If the
     bound cannot be established (unknown operation, a multiplier that is not a root-of-unity component, assembly leaf) the
     clause gives no verdict.
  R  tables are read-only: no transform writes through its PRECOMP argument (E2, all candidates) - repeated calls see
@@ -135,13 +136,14 @@ def check_sampled(box, K, name, layout, m, cpu, inverse):
 def _sampled_job(args):
     import sys
     import threading
-    name, layout, inverse, m = args
+    name, layout, inverse, m = args[:4]
+    cpu = args[4] if len(args) > 4 else 'generic'
     out = {}
 
     def work():
         try:
             L = ctx.lib()
-            err, n = check_sampled(KBox(L), KERNELS('quick'), name, layout, m, 'generic', inverse)
+            err, n = check_sampled(KBox(L), KERNELS('quick'), name, layout, m, cpu, inverse)
             out['r'] = (err, n, None)
         except (Unsupported, NeedEnum) as e:
             out['r'] = (None, 0, str(e))
@@ -366,30 +368,35 @@ def run(tier):
     big = [64, 256, 1024, 2048, 4096, 16384] if tier == 'quick' else [64, 256, 1024, 2048, 4096, 8192, 16384, 65536]
     from concurrent.futures import ProcessPoolExecutor
     fams = (('reim_fft', 'reim', False), ('reim_ifft', 'reim', True), ('cplx_fft', 'cplx', False), ('cplx_ifft', 'cplx', True))
-    jobs = [(name, layout, inverse, m) for (name, layout, inverse) in fams for m in big if m not in ms]
+    # the accelerated path as well (AVX C passes + the lifted 16-point assembly leaves), on fewer sizes
+    big_acc = [64, 1024, 4096] if tier == 'quick' else [64, 256, 1024, 2048, 4096, 16384]
+    jobs = [(name, layout, inverse, m, 'generic') for (name, layout, inverse) in fams for m in big if m not in ms] + \
+           [(name, layout, inverse, m, 'accel') for (name, layout, inverse) in fams for m in big_acc if m not in ms]
     with ProcessPoolExecutor(max_workers=min(12, len(jobs))) as ex:
         results = list(ex.map(_sampled_job, jobs))
     for name, layout, inverse in fams:
-        bad = None
-        for (jn, jl, ji, m), (err, n, broke) in zip(jobs, results):
-            if jn != name:
-                continue
-            if broke:
-                R.broke('%s m=%d: %s' % (name, m, broke))
-                continue
-            ncoef += n
-            if err:
-                bad = bad or (m, err)
-        if bad:
-            R.ob('sampled-rows-of-large-transforms-are-the-dft', '%s [generic]' % name, 'refuted', detail='m=%d: %s' % bad,
-                 key='%s:generic:sampled-matrix' % name, witness={'m': bad[0]})
-        else:
-            R.ob('sampled-rows-of-large-transforms-are-the-dft', '%s [generic]' % name, 'holds', detail='m in %s, 9 outputs each' % big)
+        for cpu in ('generic', 'accel'):
+            bad = None
+            for (jn, jl, ji, m, jc), (err, n, broke) in zip(jobs, results):
+                if jn != name or jc != cpu:
+                    continue
+                if broke:
+                    R.broke('%s m=%d [%s]: %s' % (name, m, cpu, broke))
+                    continue
+                ncoef += n
+                if err:
+                    bad = bad or (m, err)
+            if bad:
+                R.ob('sampled-rows-of-large-transforms-are-the-dft', '%s [%s]' % (name, cpu), 'refuted', detail='m=%d: %s' % bad,
+                     key='%s:%s:sampled-matrix' % (name, cpu), witness={'m': bad[0], 'cpu': cpu})
+            else:
+                R.ob('sampled-rows-of-large-transforms-are-the-dft', '%s [%s]' % (name, cpu), 'holds',
+                     detail='m in %s, 9 outputs each' % (big if cpu == 'generic' else big_acc))
     # E: a-priori rounding-error bound (E7, spqa/fperr.py) against the property's 8*log2(2m)*2^-53, norm-wise
     from math import log2 as _log2
     eb_ms = [2, 4, 8, 16, 64, 256, 1024] if tier == 'quick' else [2, 4, 8, 16, 32, 64, 128, 256, 512, 1024, 2048, 4096, 16384]
     ejobs = [(name, m, 'generic') for (name, _, _) in fams for m in eb_ms] + \
-            [(name, m, 'accel') for (name, _, _) in fams for m in (2, 4, 8)]
+            [(name, m, 'accel') for (name, _, _) in fams for m in eb_ms]
     with ProcessPoolExecutor(max_workers=min(12, len(ejobs))) as ex:
         eres = list(ex.map(_error_bound_job, ejobs))
     nbound = 0
@@ -421,8 +428,8 @@ def run(tier):
                      detail=unk or 'm=%d: the provable bound is %.1f u, the stated bound is %.1f u' % worst)
             else:
                 R.ob('a-priori-rounding-error-bound-within-the-stated-bound', subj, 'holds',
-                     detail='m in %s%s' % (mset, '; larger m pass through the assembly leaves (not modelled)' if cpu == 'accel' else ''))
-    R.floor('(transform, m, cpu) a-priori error bounds established', nbound, 30)
+                     detail='m in %s%s' % (mset, ''))
+    R.floor('(transform, m, cpu) a-priori error bounds established', nbound, 50)
     R.extra['error_bounds'] = table
     for (nf, ni, cf, ci, layout) in (('reim_fft', 'reim_ifft', 'new_reim_fft_precomp', 'new_reim_ifft_precomp', 'reim'),
                                      ('cplx_fft', 'cplx_ifft', 'new_cplx_fft_precomp', 'new_cplx_ifft_precomp', 'cplx')):
